@@ -86,7 +86,8 @@ class Check(PropertyCheck):
     assumptions = [
         "model of text escaping, node building and sauron's serializer hand-written; tied byte-for-byte to the "
         "implementation by the back-end correspondence (implementation's fragments -> model's string)",
-        "XML well-formedness on the implementation side judged by expat",
+        "XML well-formedness on the implementation side judged by expat and by the model's recognizer (a subset of "
+        "XML 1.0; proved to accept every document the model writes; compared with expat on damaged documents)",
     ]
 
     def rule(self):
@@ -133,6 +134,35 @@ class Check(PropertyCheck):
             lines.append("%dc compressed default %s" % (i, hx(t)))
         res = common.run_impl("lib", lines)
         fails = []
+        # the verified recognizer (Spec/Xml.lean, theorem document_is_well_formed) on the implementation's bytes, and
+        # on damaged copies of them next to expat (validates the recognizer: accepted => expat accepts)
+        wf_lines, damaged = [], {}
+        for k, r in res.items():
+            if r.startswith("ok "):
+                wf_lines.append("%s %s" % (k, r[3:]))
+                if self.rng.chance(1, 4):
+                    svg = unhx(r[3:])
+                    if len(svg) > 10:
+                        j = self.rng.below(len(svg))
+                        m = self.rng.below(4)
+                        d = svg[:j] + svg[j + 1:] if m == 0 else svg[:j] + self.rng.choice("<>&\"'/ =") + svg[j:] if m == 1 \
+                            else svg[:j] + svg[j + 1:j + 2] + svg[j:j + 1] + svg[j + 2:] if m == 2 else svg[:j] + self.rng.choice("<>&\"x") + svg[j + 1:]
+                        damaged["d" + k] = d
+                        wf_lines.append("d%s %s" % (k, hx(d)))
+        wf = common.run_model("xmlwf", wf_lines)
+        for k, d in damaged.items():
+            self.evaluations += 1
+            try:
+                svgcanon.parse(d)
+                ok = True
+            except svgcanon.ParseError:
+                ok = False
+            self.count("damaged_documents")
+            if wf.get(k) == "1":
+                self.count("damaged_still_wellformed")
+                if not ok:
+                    fails.append(Failure("the XML recognizer of the model accepts a document that expat rejects (machinery defect)",
+                                         {"document_hex": hx(d)[:2000]}, cls="recognizer-unsound"))
         for i, (t, exp) in enumerate(cs):
             self.evaluations += 1
             if any(not xml_ok(ch) or ch in "<>&'" for ch in t):
@@ -150,6 +180,10 @@ class Check(PropertyCheck):
                     root = svgcanon.parse(svg)
                 except svgcanon.ParseError as e:
                     fails.append(Failure("output rejected by a conforming XML parser: %s" % e, case,
+                                         {"output_tail": svg[-300:]}, cls="xml-not-wellformed"))
+                    break
+                if wf.get("%d%s" % (i, suffix)) != "1":
+                    fails.append(Failure("output not accepted by the verified XML recognizer (Spec/Xml.lean)", case,
                                          {"output_tail": svg[-300:]}, cls="xml-not-wellformed"))
                     break
                 if root.tag != "svg" or root.attrs.get("xmlns") != SVG_NS:
